@@ -27,6 +27,13 @@ V29_SRC = "fn main() { }\n"
 # regression witnesses of fixed findings
 H2_SRCS = ["fn main() { loop { } }\n", "fn main() { try { loop { } } catch e { print(\"never\"); } }\n",
             "fn main() { for i in 0..9000000000000000 { } }\n"]
+# every kind of minimal loop body: the loop itself must poll, whatever its body does or does not execute
+MINIMAL_BODIES = ["type T = int;", "let x = 1;", "1;", "{ }", "if false { };", "match 1 { _ => {} };", "for j in 0..2 { }", "continue;",
+                  "type T = int; type U = T;", "null;", "let f = fn() { };"]
+MINIMAL_LOOPS = ([f"fn main() {{ loop {{ {b} }} }}\n" for b in MINIMAL_BODIES]
+                 + [f"fn main() {{ for i in 0..9000000000000000 {{ {b} }} }}\n" for b in MINIMAL_BODIES]
+                 + [f"fn main() {{ while true {{ {b} }} }}\n" for b in MINIMAL_BODIES]
+                 + [f"fn main() {{ let k = 0; loop {{ k += 1; loop {{ {b} }} }} }}\n" for b in MINIMAL_BODIES[:4]])
 V19_SRC = "fn worker(n: int) { let i = 0; loop { i += n; } }\nfn main() { spawn worker(1); spawn worker(2); spawn worker(3); loop { } }\n"
 
 
@@ -267,6 +274,7 @@ def run(ctx):
                 ctx.note(f"known finding {e['id']}: witness no longer fails")
     # 2. regression witnesses of fixed findings
     reg = [{"cls": "infinite", "src": s, "ncores": 1, "finite": False, "line_opts": dict(ks=[1, 2, 5, 9], full=False)} for s in H2_SRCS]
+    reg += [{"cls": "infinite", "src": s, "ncores": 1, "finite": False, "line_opts": dict(ks=[1, 3, 7], full=False)} for s in MINIMAL_LOOPS]
     reg.append({"cls": "spawn", "src": V19_SRC, "ncores": 4, "finite": False, "line_opts": dict(ks=[3, 9, 20], backends=("vm",), full=False)})
     run_cases(ctx, reg, "C10 regression", False, q)
     # 3. generated programs
